@@ -75,19 +75,19 @@ RULES = {
     "C02": _u(SCHED, ("R30", link.r30_delay)),
     "C03": _u(("R05t", sched.r05t_terminate), LIFE, SCHED, CONNECT, ("R42a", misc.r42a_fresh_copy), ("R16", data.r16_getinfo), ("R30", link.r30_delay)),
     "C04": _u(SCHED, CONNECT, ("R30", link.r30_delay), ("R16", data.r16_getinfo), ("R29i", integ.r29i_initial_value)),
-    "C06": _u(CONNECT, LIFE, ("R17p", link.r17_pushpath), ("R15", data.r15_fields), ("R16", data.r16_getinfo)),
+    "C06": _u(("R29i", integ.r29i_initial_value), CONNECT, LIFE, ("R17p", link.r17_pushpath), ("R15", data.r15_fields), ("R16", data.r16_getinfo)),
     "C07": _u(META, ("R11", connect.r11_r12_connect), ("R11r", connect.r11r_rules), ("R13", connect.r13_nodata),
               ("R34", grid.r34_transdir), ("R15g", data.r15g_gridcompat), ("R36", data.r36_units), ("R35", regrid2.r35x)),
-    "C08": _u(LINKDATA, ("R19", grid.r19_taxis), ("R33", grid.r33_mirror), ("R34", grid.r34_transdir), ("R15g", data.r15g_gridcompat),
+    "C08": _u(("R19s", link.r19s_strip_time), LINKDATA, ("R19", grid.r19_taxis), ("R33", grid.r33_mirror), ("R34", grid.r34_transdir), ("R15g", data.r15g_gridcompat),
               UNITS, ("R16u", data.r16u_delivered_units), ("R37", data.r37_masktable), ("R37p", data.r37p_prepare_mask), ("R37e", data.r37e_masks_equal_layout), ("R22", spill.r22_pack), ("R25", spill2.r25s_pack),
               ("R24", spill2.r24s_format), ("R42u", misc.r42u_quantity)),
     "C09": _u(("R20", link.r20_target), ("R21", buffer.r21_evict), ("R17", buffer.r17_nearest), ("R17p", link.r17_pushpath), SPILL,
               VALID, TIMEAD, INTEG),
     "C10": _u(SPILL, ("R20", link.r20_target), ("R21", buffer.r21_evict), ("R26", buffer.r26_buffer), ("R27", buffer.r27_interp), ("R29", integ.r29_integ),
               ("R17p", link.r17_pushpath)),
-    "C11": _u(TIMEAD, ("R20", link.r20_target), ("R21", buffer.r21_evict), ("R04", buffer.r04_cmp), ("R22", spill.r22_pack), ("R24", spill2.r24s_format),
+    "C11": _u(("R19s", link.r19s_strip_time), TIMEAD, ("R20", link.r20_target), ("R21", buffer.r21_evict), ("R04", buffer.r04_cmp), ("R22", spill.r22_pack), ("R24", spill2.r24s_format),
               ("R25", spill2.r25s_pack)),
-    "C12": _u(INTEG, ("R20", link.r20_target), ("R26", buffer.r26_buffer), ("R22", spill.r22_pack), ("R21", buffer.r21_evict), ("R04", buffer.r04_cmp),
+    "C12": _u(("R19s", link.r19s_strip_time), INTEG, ("R20", link.r20_target), ("R26", buffer.r26_buffer), ("R22", spill.r22_pack), ("R21", buffer.r21_evict), ("R04", buffer.r04_cmp),
               ("R24", spill2.r24s_format), ("R25", spill2.r25s_pack)),
     "C13": _u(("R30", link.r30_delay), ("R27c", buffer.r27c_constructors), ("R02", sched.r02_sched_agree), ("R03", sched.r03_r09_step), ("R20", link.r20_target), ("R16", data.r16_getinfo)),
     "C14": _u(("R31", grid.r31_memo), ("R31d", grid.r31d_c14), ("R32", grid.r32_gridsib), ("R32b", grid.r32b_indexspace), ("R32c", grid.r32c_cellcenters),
@@ -95,7 +95,7 @@ RULES = {
               ("R33", grid.r33_mirror), ("R15g", data.r15g_gridcompat)),
     "C15": _u(("R19", grid.r19_taxis), ("R31d", grid.r31d_c15), ("R15gl", data.r15gl_without_location), ("R33", grid.r33_mirror), ("R34", grid.r34_transdir), ("R15g", data.r15g_gridcompat),
               ("R32", grid.r32_gridsib), ("R18", link.r18_pullpath), ("R37e", data.r37e_masks_equal_layout), ("R39", buffer.r39_static),
-              ("R20", link.r20_target), ("R15c", data.r15c_copy_with), ("R15", data.r15_fields)),
+              ("R20", link.r20_target), ("R15c", data.r15c_copy_only), ("R15", data.r15_fields)),
     "C16": _u(REGRID, ("R32c", grid.r32c_cellcenters), ("R32", grid.r32_gridsib), ("R32b", grid.r32b_indexspace), ("R32d", grid.r32d_cellcorners),
               ("R41", misc.r41_masktruth), ("R37", data.r37_masktable), ("R16", data.r16_getinfo), ("R31", grid.r31_memo)),
     "C17": _u(UNITS, ("R18", link.r18_pullpath), ("R15", data.r15_fields), ("R16u", data.r16u_delivered_units), ("R24", spill2.r24s_format),
@@ -103,7 +103,7 @@ RULES = {
     "C18": _u(("R37", data.r37_masktable), ("R37e", data.r37e_masks_equal_layout), ("R37p", data.r37p_prepare_mask), ("R33c", data.r33c_compress), UNITS,
               ("R15", data.r15_fields), ("R15c", data.r15c_copy_with), ("R41", misc.r41_masktruth), ("R33", grid.r33_mirror), ("R34", grid.r34_transdir)),
     "C19": _u(VALID, ("R06", life.r06_life), ("R20", link.r20_target)),
-    "C20": _u(STATIC, ("R38s", valid._slot_constructors), ("R14", connect.r14_doublepush), ("R03", sched.r03_r09_step), ("R09", sched.r09_structure), ("R02", sched.r02_sched_agree), ("R17p", link.r17_pushpath),
+    "C20": _u(("R11s", connect.r11s_static_slots), STATIC, ("R38s", valid._slot_constructors), ("R14", connect.r14_doublepush), ("R03", sched.r03_r09_step), ("R09", sched.r09_structure), ("R02", sched.r02_sched_agree), ("R17p", link.r17_pushpath),
               ("R18", link.r18_pullpath)),
 }
 SCHED_PROPS = {"C01", "C02", "C04", "C13", "C20", "C03"}
